@@ -14,10 +14,10 @@ from .common import COQ  # noqa
 CLAUSES = {
     "C13": ["ob_rest_ok (c_obs c)", "proj_eqb fr (i_src (c_in c)) (ob_src (c_obs c))", "wants_again (c_in c) (c_obs c)",
             "superset fr (c_in c) (c_obs c)", "dst_only fr (c_in c) (c_obs c)", "nothing_else fr (c_in c) (c_obs c)",
-            "idempotent fr c", "schema_ok fr (c_in c) (c_obs c)", "holds_C13 fr c"],
-    "C14": ["files_ok fr (c_in c) (c_obs c)", "docs_ok fr (c_in c) (c_obs c)", "no_backup_left (c_in c) (c_obs c)", "holds_C14 fr c"],
+            "idempotent fr c", "schema_ok fr (c_in c) (c_obs c)", "holds_C13 fr c", "perm_mismatch cc", "perm_frame_ok cc"],
+    "C14": ["files_ok fr (c_in c) (c_obs c)", "docs_ok fr (c_in c) (c_obs c)", "no_backup_left (c_in c) (c_obs c)", "holds_C14 fr c", "perm_mismatch cc", "perm_frame_ok cc"],
     "C15": ["dry_ok fr c", "deep_ok fr (c_in c) (c_obs c)", "exclude_ok fr (c_in c) (c_obs c)", "selection_ok fr (c_in c) (c_obs c)",
-            "parallel_ok fr c", "holds_C15 fr c", "known_tag_C15 cc"],
+            "parallel_ok fr c", "holds_C15 fr c", "perm_mismatch cc", "perm_dry_ok cc"],
 }
 
 
